@@ -32,11 +32,18 @@ model definitions:
 * `n call…` — huge arrays on which the list-backed model is too slow (the transposition behind an odd quarter turn is quadratic:
   66 s for [300,300]): the driver answers `ok native` and the harness judges the crate by its native coordinate-formula
   reference, which it compares with the full answer of `handle1` on every other case of the same run (`oracle_report` lines);
+* `n call iota:<shape> …` (part 3) — GIANT arrays (more than 2^20 elements, built by the harness from the shape, never written
+  out): answered `ok native` like every `n` line; the harness runs the same native reference on the iota tags and compares the
+  crate's result with it in place;
+* `v call` (part 3) — the call itself, answered by `handle1` in full; the prefix only tells the harness to run ALL its
+  value-relation images (arrays whose elements are all `==` but not identical: zeros of both signs, a user type with a coarse
+  equality) and element-layout images (12-, 3-, 32-byte elements) of the tag array besides the compared i64 run;
 * `seq call / call / …` — several calls executed one after the other on the same thread (hidden-state streams: colliding shapes
   back to back, A–B–A, a refused call followed by a valid one); the model is a function, so every call is answered on its own. -/
 def handleOne (op : String) (args : List String) : Option String :=
   match op, args with
   | "n", _ :: _ => some "ok native"
+  | "v", o :: as => handle1 o as
   | "oracle_report", _ => some "ok report"
   | _, _ => handle1 op args
 
